@@ -222,6 +222,12 @@ fn make_crypto_reader<'a>(
             return unsupported_zip_error("Compression method not supported");
         }
     }
+    // Method 99 is only a marker; the real method comes from the AES extra field. If it is still
+    // here, that field was missing (streaming reader) or names method 99 itself.
+    #[cfg(feature = "aes-crypto")]
+    if let CompressionMethod::Aes = compression_method {
+        return unsupported_zip_error("Compression method not supported");
+    }
 
     let reader = match (password, aes_info) {
         #[cfg(not(feature = "aes-crypto"))]
